@@ -118,6 +118,11 @@ class ModuleInfo:
         with warnings.catch_warnings():
             warnings.simplefilter("ignore")
             self.tree = ast.parse(source, filename=path)
+        # undo behaviour-preserving renamings / mirrored comparisons / flipped branches (see normalise.py)
+        self.normalised = 0
+        if not os.environ.get("PDV_NO_NORMALISE"):
+            from . import normalise
+            self.normalised = normalise.normalise_module(self.tree, name)
         self.lines = source.splitlines()
         self.sha256 = hashlib.sha256(source.encode()).hexdigest()
         self.functions: Dict[str, FuncInfo] = {}
